@@ -141,12 +141,14 @@ def gopt(x):
     return "None" if x is None else "(Some %s)" % x
 
 
-def write_shards(wd, module, items, shards=16, only=None):
-    """items: list of (gallina term, description dict)."""
+def write_shards(wd, module, items, shards=16, only=None, offset=0, first_shard=0):
+    """items: list of (gallina term, description dict). offset/first_shard allow appending to the
+    shards a harness run already wrote into wd."""
     os.makedirs(wd, exist_ok=True)
     files = [[] for _ in range(shards)]
-    with open(os.path.join(wd, "cases.jsonl"), "w") as side:
-        for i, (term, desc) in enumerate(items):
+    with open(os.path.join(wd, "cases.jsonl"), "a" if first_shard else "w") as side:
+        for i0, (term, desc) in enumerate(items):
+            i = i0 + offset
             if only is not None and only != i:
                 continue
             files[i % shards].append("(%d%%N, %s)" % (i, term))
@@ -154,7 +156,7 @@ def write_shards(wd, module, items, shards=16, only=None):
             d["i"] = i
             side.write(json.dumps(d, ensure_ascii=False) + "\n")
     for k, its in enumerate(files):
-        with open(os.path.join(wd, "shard_%d.v" % k), "w") as f:
+        with open(os.path.join(wd, "shard_%d.v" % (k + first_shard)), "w") as f:
             f.write("From Selene Require Import Corr.%s.\nOpen Scope string_scope. Open Scope list_scope.\n" % module)
             for j, it in enumerate(its):
                 f.write("Definition c%d := %s.\n" % (j, it))
